@@ -100,7 +100,10 @@ def parseOp (args : List String) : Option Op :=
 
 def stepLine (d : DS) (args : List String) : DS × String :=
   match args with
-  | "reset" :: oidc :: jwt :: al :: usage =>
+  | "reset" :: oidc :: jwt :: al :: rest =>
+    -- rest: [usage variant or "-"] [deny_unknown_scopes: "-" | "all" (provider preference) | a client id (that client's own setting)]
+    let usage : List String := match rest.head? with | some "-" => [] | some u => [u] | none => []
+    let deny : String := (rest.drop 1).head?.getD "-"
     match decList al with
     | none => (d, "bad-op")
     | some l =>
@@ -108,7 +111,8 @@ def stepLine (d : DS) (args : List String) : DS × String :=
                   clientOv := (if usage = ["c1"] then ovC1 else fun _ _ => none),
                   allowed := parseAllowed l, grantExpiresIn := (if usage = ["ng"] ∨ usage = ["nr"] then 0 else 43200), authnExpiresIn := 3600,
                   -- harness configuration: client_1 back-channel, client_2 front-channel, client_3 no logout URI
-                  logoutUri := fun c => c == lit "client_1" || c == lit "client_2" }, st := {} }, "ok")
+                  logoutUri := fun c => c == lit "client_1" || c == lit "client_2",
+                  denyUnknown := fun c => deny = "all" || (deny != "-" && c == lit deny) }, st := {} }, "ok")
   | ["ccscope", al] =>
     match optList al with
     | some a => (d, encList (configuredScope a))
